@@ -192,7 +192,15 @@ def main():
                     note(None, "[%s] after the 'full' commit of /h/p -> %s the data directory holds %r at the path, not a copy of the result" % (tag, k, data.get("dbfs:/data/h/p")))
                 if ct == CommitType.LINK_ONLY and data.get("dbfs:/data/h/p") != before.get("dbfs:/data/h/p"):
                     note(None, "[%s] a 'links only' commit wrote the object at the path" % tag)
-    print(json.dumps({"scope": "8 histories of set_store('dbfs', commit_type=...) on one location + 81 histories of 3 commit types over the same directories x {fresh store object per step, one long-lived store object per commit type} x 3 key sequences + 3 commit types x 4 value types x {store, commit, re-commit, leading-dot path, end-to-end keep/load with an edit and a revert} on a fake dbutils.fs",
+    # blobs written by other releases: legacy / current codec references x 3 shapes of the metadata record; blob operations
+    from replay import h_dbfs as _h
+
+    for fn_ in (_h.alias_kinds, _h.blob_ops):
+        evals += 18
+        r_ = fn_({}, {})
+        if r_.get("reproduced"):
+            note(None, "[%s] %s" % (fn_.__name__, r_["detail"]))
+    print(json.dumps({"scope": "18 blobs whose metadata record comes from another release (legacy / current codec reference x {with timestamp, reference only, additional fields}) + blob operations for 5 values x references + 8 histories of set_store('dbfs', commit_type=...) on one location + 81 histories of 3 commit types over the same directories x {fresh store object per step, one long-lived store object per commit type} x 3 key sequences + 3 commit types x 4 value types x {store, commit, re-commit, leading-dot path, end-to-end keep/load with an edit and a revert} on a fake dbutils.fs",
                       "evaluations": evals, "distinct_nontrivial": evals, "rule": "one case per (commit type, operation)", "samples": [{"commit_type": "links_only", "op": "sync_paths then fetch_paths"}],
                       "violations": violations, "known_hits": ["bounded:%s (%d cases, e.g. %s)" % (c, len(w), w[0][:160]) for c, w in sorted(known.items())]}))
 
